@@ -56,6 +56,8 @@ def apply(state, op, depth=0):
         return state, OK_NONE
     if name == 'reset':
         return state, ('ok', fp(op['value']))
+    if name == 'open_settings':
+        return state, None
     if name == 'len':
         return state, ('ok', fp(len(state)))
     if name == 'clear':
